@@ -43,3 +43,13 @@ Theorem C15_lossy_identity_on_valid :
   forall l, utf8_valid l = true -> from_utf8_lossy l = l.
 Proof. exact lossy_valid. Qed.
 Print Assumptions C15_lossy_identity_on_valid.
+
+(** every value the application can read from a nested route's parameter map (the
+    params_including_parents memo over any number of ancestor levels, whatever raw
+    segments they matched) is the once-decoded text of a raw segment bound to that name *)
+Theorem C15_nested_values_decoded_once :
+  forall levels k vs v,
+    In (k, vs) (params_including_parents levels) -> In v vs ->
+    exists raw r, In raw levels /\ In (k, r) raw /\ v = unescape r.
+Proof. exact nested_values_decoded_once. Qed.
+Print Assumptions C15_nested_values_decoded_once.
